@@ -43,7 +43,17 @@ def _outcome(fn, dds_exc_cls):
         is_dds = isinstance(e, dds_exc_cls)
         code = getattr(e, "error_code", None)
         tb = traceback.format_exc()
-        return ("exc", type(e).__name__, str(e)[:400], getattr(code, "name", None) if code is not None else None, is_dds, ident, tb[-1500:])
+
+        def key_of(x):
+            if x is None:
+                return None
+            for k, ex in vlog.raised.items():
+                if ex is x:
+                    return k
+            return "unregistered:" + type(x).__name__
+
+        chain = {"cause": key_of(e.__cause__), "context": key_of(e.__context__), "suppress_context": bool(e.__suppress_context__)}
+        return ("exc", type(e).__name__, str(e)[:400], getattr(code, "name", None) if code is not None else None, is_dds, ident, tb[-1500:], chain)
 
 
 def make_store(spec):
